@@ -568,6 +568,7 @@ func TestC19(t *testing.T) {
 	defer finishProperty(st)
 	c19AliasProbe(t, st)
 	c19ExpiryRaceProbe(t, st)
+	c19SharedService(t, st)
 	checkCases(t, st, func(t *rapid.T) { c19Run(t, st) })
 }
 
@@ -804,4 +805,113 @@ func c19ExpiryRaceProbe(t fataler, st *kvh.Stats) {
 
 func init() {
 	replayers["probe-c19-expiry-race"] = func(_ *kvh.Case, _ []byte) *kvh.Fail { return replayProbe(c19ExpiryRaceProbe, "C19") }
+}
+
+// ---- one service shared by several clients, each working on keys of its own (a server's goroutines: some run work
+// queues, others sets, hashes, sorted sets). The keys are private, so every client's replies are those of its own
+// sequential reference model whatever the other clients do at the same time.
+
+type c19SharedCase struct {
+	Property string  `json:"property"`
+	Kind     string  `json:"kind"`
+	Opt      kvh.Opt `json:"options"`
+	Round    int     `json:"round"`
+	Clients  int     `json:"clients"`
+	Cmds     int     `json:"cmds"`
+}
+
+var c19SharedCmds = []string{"set", "get", "hset", "hget", "hdel", "sadd", "sismember", "srem", "lpush", "rpush", "lpop", "rpop", "zadd", "zscore", "del",
+	"rpush", "lpop", "rpush", "lpop", "lpush", "rpop", "hset", "sadd", "zadd", "srem", "hdel"}
+
+func runC19Shared(c *c19SharedCase) *kvh.Fail {
+	r0, f := newRedisRunner(c.Opt)
+	if f != nil {
+		return f
+	}
+	defer r0.cleanup()
+	fails := make([]*kvh.Fail, c.Clients)
+	start := make(chan struct{})
+	var wg sync.WaitGroup
+	for i := 0; i < c.Clients; i++ {
+		ri := &redisRunner{keys: map[string]*rkey{}, types: map[string]bool{}, deleted: map[string]bool{}, dts: r0.dts}
+		wg.Add(1)
+		go func(i int, ri *redisRunner) {
+			defer wg.Done()
+			<-start
+			for j := 0; j < c.Cmds; j++ {
+				h := kvh.Hash64([]byte(fmt.Sprintf("c19shared|%d|%d|%d", c.Round, i, j)))
+				cmd := rcmd{C: c19SharedCmds[h%uint64(len(c19SharedCmds))], Key: []byte{byte('A' + i), byte('0' + (h>>8)%3)}}
+				switch cmd.C {
+				case "set":
+					cmd.V = []byte(fmt.Sprintf("s%d", (h>>24)%50))
+				case "hset", "lpush", "rpush":
+					cmd.V = []byte(fmt.Sprintf("e%d", (h>>24)%50))
+				case "zadd":
+					cmd.Score = c19Scores[(h>>32)%13]
+				}
+				switch cmd.C {
+				case "hset", "hget", "hdel", "sadd", "sismember", "srem", "zadd", "zscore":
+					cmd.F = c19Fields[(h>>16)%uint64(len(c19Fields))]
+				}
+				if !ri.admissible(&cmd) {
+					continue
+				}
+				if f := ri.step(cmd); f != nil {
+					f.Msg = fmt.Sprintf("client %d of %d (keys %c0..%c2 are its own; the other clients work on theirs at the same time): %s", i, c.Clients, 'A'+i, 'A'+i, f.Msg)
+					fails[i] = f
+					return
+				}
+			}
+		}(i, ri)
+	}
+	close(start)
+	wg.Wait()
+	for _, f := range fails {
+		if f != nil {
+			return f
+		}
+	}
+	return nil
+}
+
+func c19SharedService(t *testing.T, st *kvh.Stats) {
+	e := kvh.GetEnv()
+	rounds := 24
+	if e.Thorough() {
+		rounds = 400
+	}
+	for i := 0; i < rounds; i++ {
+		if !e.Mine(i) {
+			continue
+		}
+		c := &c19SharedCase{Property: "C19", Kind: "c19shared", Opt: kvh.DefaultOpt(), Round: i, Clients: 2 + i%7, Cmds: 1500}
+		c.Opt.Index = int8(1 + i%3)
+		if i%4 == 1 {
+			c.Opt.FileSize = 4096
+		}
+		kvh.SetInFlight(&kvh.InFlight{Property: "C19", Case: func() any { return c }})
+		f := runC19Shared(c)
+		kvh.SetInFlight(nil)
+		if f != nil {
+			report(t, st, c, f)
+		}
+		st.Eval(1)
+		st.Label("one-service-shared-by-clients-with-keys-of-their-own")
+		st.NonTrivial(kvh.Hash64([]byte(fmt.Sprintf("c19shared|%+v", *c))))
+	}
+}
+
+func init() {
+	replayers["c19shared"] = func(_ *kvh.Case, raw []byte) *kvh.Fail {
+		var c c19SharedCase
+		if err := jsonUnmarshal(raw, &c); err != nil {
+			return &kvh.Fail{Sig: "harness-bad-case", Msg: err.Error()}
+		}
+		for i := 0; i < 10; i++ { // schedule dependent
+			if f := runC19Shared(&c); f != nil {
+				return f
+			}
+		}
+		return nil
+	}
 }
